@@ -14,6 +14,44 @@ CHECKS = {
             "claim over inputs and schedules can only be searched, not proved, by this technique.",
             "Trusted: Python, the harness runtime rt/verif_rt.c (serial schedules are legal executions of a "
             "data-race-free program; C12 checks that premise).", "4/C01"),
+    "C02": ("exploration",
+            "Hypothesis-generated inputs; independent strict stream inspector (bzkit) + libbz2 differential",
+            "Every compressed stream of a generated input (all levels, both modes, capacity-boundary families, an 18001-selector "
+            "block) is parsed bit by bit by an independent strict inspector that checks each clause of the property (header digit, "
+            "block sizes, CRCs, no randomisation, primary index, 2-6 tables all complete incl. unused ones, code length paths in "
+            "1-20, <= 18002 selectors, nothing after the last stream) and is decoded by libbz2 and the bzip2 program.",
+            "Trusted: bzkit (cross-checked against libbz2 on every case), libbz2 1.0.8.", "4/C02"),
+    "C04": ("exploration",
+            "Hypothesis-generated run/boundary inputs; independent greedy packing model vs block boundaries recovered from the stream",
+            "Per block the consumed input length and run-length-encoded size recovered from the compressed stream must equal an "
+            "independent 60-line model of the greedy packing rule, for inputs built to sit on the 4/259 run limits and within +-6 "
+            "bytes of the block capacity, in both modes, all levels, several worker counts and schedules.",
+            "Trusted: the packing model (self-tested against brute force), bzkit for recovering block sizes.", "4/C04"),
+    "C05": ("exploration",
+            "mutation- and generator-based fuzzing of the real decompressor; differential against bzkit strict reference + libbz2",
+            "Field-aware and byte-level mutations (truncation, boundary values, near-miss trailing headers, re-sealed CRCs) of valid "
+            "files from two encoders, and choice-tape streams with catalogue defects, are decompressed by the real program under "
+            "several worker counts, schedules and input block sizes; exit 0 must imply that two independent references accept the "
+            "input and that the bytes agree.",
+            "Trusted: bzkit + libbz2 agreement (candidates on which they disagree are skipped and counted).", "4/C05"),
+    "C07": ("fault_enumeration",
+            "exhaustive truncation / metadata bit-flip enumeration of generated files + Hypothesis mutations; clean-rejection oracle",
+            "For generated tiny multi-stream files every truncation length and every single-bit flip of every metadata field is "
+            "tried (exhaustive per file), plus random mutations of larger files; every candidate the references call invalid must "
+            "give exit 1, a diagnostic naming the program, no signal, no hang, and with a FILE operand no output file and an "
+            "untouched input.", "Trusted: bzkit + libbz2 for the invalid/valid classification.", "4/C07"),
+    "C15": ("fault_enumeration",
+            "exhaustive single-bit fault enumeration over all stored CRC fields of generated files x worker counts",
+            "Every bit of every stored block CRC and stream CRC of generated multi-stream multi-block files (both encoders, "
+            "byte-aligned and unaligned blocks) is flipped and the file decompressed with 1/2/4/16 workers and a serialised "
+            "schedule; exit status must be 1. Exhaustive per file; files are generated from the seed.",
+            "Trusted: bzkit field map for CRC positions.", "4/C15"),
+    "C20": ("exploration",
+            "Hypothesis-generated inputs; independent package-merge optimum vs every used table recovered from the stream",
+            "For every used table of every block of generated streams the total coded length of the symbols coded with it equals "
+            "an independent length-limited optimum (package-merge, validated against brute force at each run) under the table's own "
+            "maximum length; all lengths <= 20; tables complete.",
+            "Trusted: bzkit for per-table symbol counts; the package-merge oracle.", "4/C20"),
 }
 
 NOT_YET = "not built yet in this round (planned, see DESIGN.md section 7b)"
